@@ -272,7 +272,11 @@ def compileGSUB(featureFile, glyphOrder, fvar=None):
     font.setGlyphOrder(glyphOrder)
     if fvar:
         font["fvar"] = fvar
-    addOpenTypeFeatures(font, featureFile, tables={"GSUB"})
+    # feaLib's builder visits every statement (also the GPOS ones) and replaces
+    # variable scalars in anchors and value records by their default value *in
+    # the AST*: build from a copy, so that positioning statements that feature
+    # writers have already added to the caller's feature file keep varying
+    addOpenTypeFeatures(font, deepcopy(featureFile), tables={"GSUB"})
     return font.get("GSUB")
 
 
